@@ -24,6 +24,11 @@ SPEC = dict(
         # IntegerVisitor
         "SymVerif.C34.is_integer_sound_true",
         "SymVerif.C34.is_integer_sound_false",
+        # is_even / is_odd
+        "SymVerif.C34.is_even_sound_true",
+        "SymVerif.C34.is_even_sound_false",
+        "SymVerif.C34.is_odd_sound_true",
+        "SymVerif.C34.is_odd_sound_false",
         # RealVisitor / ComplexVisitor / FiniteVisitor: the informative direction on real-valued semantics
         "SymVerif.C34.is_real_sound_false",
         "SymVerif.C34.is_complex_sound_false",
@@ -33,15 +38,14 @@ SPEC = dict(
         "SymVerif.C34.evalR_add_args",
         "SymVerif.C34.evalR_mul_args",
     ],
-    rule="q <query> (A <statements>) <expr>: 17 queries (even/odd mostly on shapes with definite parity: numbers, c*x*y, 2k*x + d) x random assumption sets (per symbol: none/complex/real/rational/"
+    rule="poly (V <symbols>) <expr> (8%: random variable sets, polynomial-looking sums of products with spoilers) and q <query> (A <statements>) <expr>: 17 queries (even/odd mostly on shapes with definite parity: numbers, c*x*y, 2k*x + d) x random assumption sets (per symbol: none/complex/real/rational/"
          "integer x none/>0/<0/>=0/<=0/==0/!=0/two-sided/other numeric bounds; 4% inconsistent sets) x expressions "
          "(55% targeted at the combination rules: linear combinations, products, powers, one-argument functions, sums of "
          "constants; 35% random trees of depth 1-4 incl. Gaussian rationals, radicals, symbolic exponents, a few floats / "
          "infinities; leaves; Set/Relational/Boolean objects for the throwing paths). distinct = distinct op lines; "
          "non-trivial = all but the tags trivial-*; the answer distribution (T/F/I per query) is in impl_stats",
-    not_covered=["is_polynomial (not modelled, not generated)",
-                 "is_even / is_odd: modelled through models of div(b, 2) and add(b, 1) (Model/Queries2.lean), compared and "
-                 "oracle-checked on every run, no theorem yet",
+    not_covered=["is_polynomial: modelled (Model/Queries2.lean), compared on every run and judged by a derivative oracle "
+                 "(a 'true' answer must have a vanishing 16th derivative in every variable); no theorem",
                  "is_rational / is_irrational / is_algebraic / is_transcendental: modelled and compared on every run, "
                  "oracle-checked, no theorem yet (irrationality of e and transcendence of pi, e are not in Mathlib)",
                  "ComplexVisitor rules that build new function objects (tan, cot, sec, csc, atan, atanh, acot, acoth) and "
@@ -56,8 +60,8 @@ SPEC = dict(
                  "which would show up as a correspondence difference)"],
     level_text="Lean theorems over an executable model of the tribool algebra, the Assumptions constructor and the visitors of "
                "test_visitors.cpp: for every statement list, every assignment satisfying it, and every expression with a real "
-               "value, a definite answer of is_zero/is_nonzero/is_positive/is_negative/is_nonnegative/is_nonpositive/is_integer "
-               "is true of the value, and an expression declared non-real/non-complex/infinite has no real value. The model is "
+               "value, a definite answer of is_zero/is_nonzero/is_positive/is_negative/is_nonnegative/is_nonpositive/is_integer/is_even/"
+               "is_odd is true of the value, and an expression declared non-real/non-complex/infinite has no real value. The model is "
                "run against the real library on generated (query, assumptions, expression) triples every run; an independent "
                "oracle evaluates the expression exactly at admissible rational/Gaussian points and tests the predicate.",
     level_note="Semantics is real-valued (evalR): complex values, infinities and definedness are outside the theorems and are "
@@ -66,6 +70,6 @@ SPEC = dict(
     technique="induction on fuel with ordered-field facts (sums of positives, integer closure), get_args()/value lemmas, "
               "invariant proof for the Assumptions constructor (every elementary update is justified by its statement); "
               "differential correspondence + exact-evaluation oracle",
-    partial=["is_rational/is_irrational, is_algebraic/is_transcendental, is_even/is_odd: modelled + correspondence + oracle, no theorem",
-             "is_polynomial: not covered"],
+    partial=["is_rational/is_irrational, is_algebraic/is_transcendental, is_polynomial: modelled + correspondence + oracle, "
+             "no theorem"],
 )
